@@ -2,9 +2,17 @@
 # tools/seeded_run.sh <patch.diff> <Cnn> [tier]  — apply a seeded change to /repo, run the check, undo it straight afterwards.
 set -u
 P=$(realpath "$1"); ID=$2; TIER=${3:-quick}
+if [ -n "${SEED_OVERLAY:-}" ]; then
+  # same effect for the build without touching /repo (used while other work is reading /repo): mount the patched files
+  D=$(mktemp -d /tmp/seedov.XXXXXX); trap 'rm -rf "$D"' EXIT
+  /verif/tools/patch_overlay.sh "$D" "$P" >/dev/null || { echo "patch does not apply" >&2; exit 2; }
+  cd /verif && VERIF_OVERLAY=$D/ov.json ./check "$ID" "$TIER" 2>&1 | grep -E "^(VIOLATION|  \[|C[0-9]+ |INFRA|build)" | cut -c1-${SEED_COLS:-330} | head -${SEED_LINES:-8}
+  echo "exit=${PIPESTATUS[0]}"
+  exit 0
+fi
 cd /repo || exit 2
 [ -z "$(git status --porcelain --untracked-files=no)" ] || { echo "/repo has uncommitted changes" >&2; exit 2; }
 git apply "$P" || { echo "patch does not apply" >&2; exit 2; }
 trap 'git -C /repo checkout -- . ; git -C /repo clean -fdq -e cmd/otelcorecol/otelcorecol >/dev/null 2>&1' EXIT
-cd /verif && ./check "$ID" "$TIER" 2>&1 | grep -E "^(VIOLATION|  \[|KNOWN|C[0-9]+ |INFRA|build)" | cut -c1-${SEED_COLS:-330} | head -${SEED_LINES:-8}
+cd /verif && ./check "$ID" "$TIER" 2>&1 | grep -E "^(VIOLATION|  \[|C[0-9]+ |INFRA|build)" | cut -c1-${SEED_COLS:-330} | head -${SEED_LINES:-8}
 echo "exit=${PIPESTATUS[0]}"
